@@ -925,6 +925,13 @@ where
 
         let (exit_state, exit_reason, was_killed, mut ports) = loop_done??;
 
+        // A signalled (killed) actor did not shut down cleanly: as documented on
+        // `SupervisionEvent::ActorTerminated`, report it without capturing its
+        // (possibly half-updated) state, the same as a kill during `post_start`/`post_stop`.
+        if was_killed {
+            return Err(ActorErr::Cancelled);
+        }
+
         // if we didn't exit in error mode, call `post_stop`
         if !was_killed {
             match ports
